@@ -180,12 +180,14 @@ CORPUS = [
     "c17 s 3 C 1 1 0 C X1 2 0 C XX1 4 0 T 0 0 1 2 T 1 2 1 0 T 2 0 0 1",
 ]
 
+import re
+def flags(verd): return dict(m.groups() for m in re.finditer(r"(?:^| )([a-z]+)=(\d+)(?= |$)", verd))
 def nontrivial(c, impl, verd):
-    w = dict(x.split("=") for x in verd.split() if "=" in x)
+    w = flags(verd)
     return int(w.get("handles", 0)) >= 3 and int(w.get("kinds", 0)) >= 2 and int(w.get("maxnodes", 0)) >= 2
 
 def observe(dist, c, impl, verd):
-    w = dict(x.split("=") for x in verd.split() if "=" in x)
+    w = flags(verd)
     toks = c.split()
     for k in ("dom_" + toks[1], "nv_" + toks[2]): dist[k] = dist.get(k, 0) + 1
     for o in set(t for t in toks[3:] if t in ("K", "C", "Y", "U", "B", "T", "P", "R", "E", "X")):
